@@ -27,7 +27,7 @@ def run(ctx):
     results = []
     # stream 1: Clean (decides cleanedness)
     lines = ["clean " + enc(s) for s in strings]
-    st = Stream("clean", lines, desc="filepath.Clean on all byte strings over {/ . a b C3 A4} up to length %d plus random long strings; non-trivial = output differs from input" % L,
+    st = Stream("clean", lines, desc="filepath.Clean on all byte strings over {/ . a b C3 A4 \\} up to length %d plus random long strings; non-trivial = output differs from input" % L,
                 nontrivial=lambda i, l, o: l.split(" ")[1] != o, exhaustive=True)
     r = run_t1_stream("C19", st, model_ok)
     results.append(r)
